@@ -230,6 +230,9 @@ func Universe(si *world.SchemaInfo, profile string) []Slot {
 		add(P(E("k3", "z", "r", "m", "2", "a", "q"), E("val")), "w1", "w2")
 		add(P(E("ch"), E("alphabet")), "z1", "z2")
 		add(P(E("ch"), E("betamax")), "z1", "z2")
+		// two lists of the same local name (k1/sub keyed id, tw/sub keyed "z a") in one tree
+		add(P(E("tw"), E("sub", "z", "p", "a", "q"), E("v")), "s1", "s2")
+		add(P(E("tw"), E("sub", "z", "q", "a", "p"), E("v")), "s1", "s2")
 	case "choice":
 		add(P(E("sys"), E("hostname")), "h1", "h2")
 		add(P(E("ch"), E("alpha")), "a1", "a2")
